@@ -10,7 +10,10 @@ one(){
   git -C /repo worktree add -q --detach $wt HEAD || return
   ( cd $wt && git apply $d/patch.diff ) || { echo "$id PATCH FAILS"; git -C /repo worktree remove --force $wt; return; }
   : > $d/detection.txt
-  for p in $props; do
+  plist="$props"
+  # OWN_ONLY=1: run only the mutant's own property (fast re-validation after rule changes)
+  if [ -n "$OWN_ONLY" ]; then plist=$(python3 -c "import json;print(json.load(open('$d/meta.json'))['property'])"); fi
+  for p in $plist; do
     ${DHTLINT:-/verif/bin/dhtlint} -repo $wt -property $p -tier quick -no-evidence > /tmp/sc_$id.$p.txt 2>&1; rc=$?
     grep -E "^(VIOLATION|BROKEN)" /tmp/sc_$id.$p.txt | sed -e "s#replay=[^ ]* ##" | cut -c1-400 >> $d/detection.txt
     echo "$p exit=$rc" >> $d/detection.txt
@@ -35,5 +38,5 @@ own='-' if m['own_property_check_exit'] is None else m['own_property_check_exit'
 print(id,'own=%s'%own,'nonzero=%s'%','.join(m['checks_with_nonzero_exit']))
 PY
 }
-export -f one; export props
+export -f one; export props OWN_ONLY
 echo $ids | tr ' ' '\n' | xargs -P 6 -I{} bash -c 'one {}'
